@@ -44,15 +44,71 @@ PROBES = ["merged_pair", "merged_triple", "merged_dataset_variables", "clock_fau
           "ingredient_reindex", "ingredient_chunks"]
 
 _ZYGOTE = None
+PRISTINE_REPLAY = True  # shrinking and replay attempts run in a process forked from the zygote
+_REGISTRY0 = None
 
 
 def warmup():
     """Start the pristine-process zygote before this process ever calls flox."""
+    global _ZYGOTE, _REGISTRY0
+    if _REGISTRY0 is None:
+        from flox.aggregations import AGGREGATIONS
+
+        _REGISTRY0 = copy.deepcopy(AGGREGATIONS)
+    if _ZYGOTE is None:
+        from .. import zygote as z
+
+        _ZYGOTE = z.CURRENT if z.CURRENT is not None else z.Zygote("simflox.checks.c14", "zygote_dispatch").start()
+
+
+def _zy():
     global _ZYGOTE
     if _ZYGOTE is None:
-        from ..zygote import Zygote
+        from .. import zygote as z
 
-        _ZYGOTE = Zygote("simflox.checks.c14", "pristine_eval").start()
+        _ZYGOTE = z.CURRENT
+    return _ZYGOTE
+
+
+def zygote_dispatch(req):
+    """Runs in a fresh grandchild of the zygote."""
+    if req[0] == "eval":
+        return pristine_eval(req[1:])
+    if req[0] == "run":
+        import sys
+
+        from ..runner import execute_one
+
+        _, case, tape_rec, tier = req
+        t = Tape(replay=tape_rec)
+        verdict, ctx = execute_one(sys.modules[__name__], case, t, tier, limit_s=90)
+        return {"verdict": verdict, "digest": ctx.log.digest(), "lines": ctx.log.lines[:400], "rec": t.rec}
+    raise ValueError(req[0])
+
+
+def pristine_execute(case, tape_rec, tier):
+    """Used by the runner for shrink / replay attempts: the whole history in a pristine process."""
+    resp = _zy().request(("run", case, tape_rec, tier), timeout=180)
+    if resp[0] != "ok":
+        raise RuntimeError(f"pristine run failed: {resp[1:]}")
+    return resp[1]
+
+
+def _reset_known_state():
+    """Make runs independent of each other as far as flox's known process-global state goes
+    (the pristine-process oracle is what catches state we do not know about)."""
+    import flox.cache
+    from flox import dask_array_ops
+    from flox.aggregations import AGGREGATIONS
+
+    if hasattr(flox.cache.cache, "clear"):
+        flox.cache.cache.clear()
+        flox.cache.cache.resize(1e6)
+    if hasattr(dask_array_ops.get_parts, "cache_clear"):
+        dask_array_ops.get_parts.cache_clear()
+    if _REGISTRY0 is not None:
+        AGGREGATIONS.clear()
+        AGGREGATIONS.update(copy.deepcopy(_REGISTRY0))
 
 
 # ---------------------------------------------------------------------------
@@ -76,7 +132,14 @@ def gen(tape: Tape, tier: str) -> dict:
     if (codes0 == codes1).all():
         codes1 = codes1[::-1].copy()
     sorted_codes = np.sort(codes0)
-    labels = [codes0.astype("i8"), codes1.astype("i8"), sorted_codes.astype("i8")]
+    # a second sequential labelling with different run boundaries (same chunks, other labels: memo keys must differ)
+    cuts = sorted(tape.shuffle("gen.runs2", range(1, n))[: ngroups - 1])
+    sorted2 = np.zeros(n, dtype="i8")
+    for c in cuts:
+        sorted2[c:] += 1
+    if (sorted2 == sorted_codes).all():
+        sorted2 = (sorted2.max() - sorted2)[::-1].copy()
+    labels = [codes0.astype("i8"), codes1.astype("i8"), sorted_codes.astype("i8"), sorted2.astype("i8")]
     base_chunks = gen_chunks(tape, n, max_blocks=5)
     nops = tape.randint("gen.nops", 3, 8)
     ops = []
@@ -168,7 +231,7 @@ def gen(tape: Tape, tier: str) -> dict:
     fault_kinds = set()
     ingredient = None
     while len(ops) < nops:
-        r = tape.draw("gen.optype", 12)
+        r = tape.draw("gen.optype", 13)
         if r < 4 or not handles:
             call = base_call()
             ops.append(call)
@@ -195,12 +258,13 @@ def gen(tape: Tape, tier: str) -> dict:
                             "chunks": [base_chunks], "kwargs": enc_value({"func": tape.choice("gen.scan", ["nancumsum", "ffill", "bfill"])})})
                 handles.append(len(ops) - 1)
                 ops.append({"op": "compute", "handles": [len(ops) - 2, len(ops) - 1]})
-        elif r < 6:
-            ops.append({"op": "call", "api": tape.choice("gen.rechunk", ["rechunk_for_blockwise", "rechunk_for_cohorts"]),
-                        "arr": tape.draw("gen.arr", 3), "lab": 2, "chunks": [gen_chunks(tape, n, max_blocks=5)], "kwargs": {}})
+        elif r < 6 or r == 12:
+            ops.append({"op": "call", "api": tape.choice("gen.rechunk", ["rechunk_for_blockwise", "rechunk_for_blockwise", "rechunk_for_cohorts"]),
+                        "arr": tape.draw("gen.arr", 3), "lab": 2 + tape.draw("gen.sortedlab", 2),
+                        "chunks": [base_chunks if tape.chance("gen.samechunks", 0.7) else gen_chunks(tape, n, max_blocks=5)], "kwargs": {}})
         elif r < 7:
-            ops.append({"op": "call", "api": "blockwise_1d", "arr": tape.draw("gen.arr", 3), "lab": 2,
-                        "chunks": [gen_chunks(tape, n, max_blocks=5)],
+            ops.append({"op": "call", "api": "blockwise_1d", "arr": tape.draw("gen.arr", 3), "lab": 2 + tape.draw("gen.sortedlab", 2),
+                        "chunks": [base_chunks if tape.chance("gen.samechunks", 0.7) else gen_chunks(tape, n, max_blocks=5)],
                         "kwargs": enc_value({"func": tape.choice("gen.bwfunc", ["sum", "nanmax", "median", "count"]), "method": "blockwise"})})
             handles.append(len(ops) - 1)
         elif r < 8:
@@ -208,10 +272,10 @@ def gen(tape: Tape, tier: str) -> dict:
                         "lab": tape.draw("gen.lab", 2), "chunks": [base_chunks],
                         "kwargs": enc_value({"func": tape.choice("gen.xrfunc", ["sum", "mean", "var", "max", "count"]),
                                              "expected_groups": np.arange(ngroups)})})
-        elif r < 9 and len(handles) >= 2:
+        elif r == 8 and len(handles) >= 2:
             k = 3 if len(handles) >= 3 and tape.chance("gen.triple2", 0.3) else 2
             ops.append({"op": "compute", "handles": tape.shuffle("gen.pick", handles)[:k]})
-        elif r < 10:
+        elif r == 9:
             mode = tape.choice("gen.clock", ["frozen", "backward", "jumpy", "normal"])
             ops.append({"op": "clock", "mode": mode})
             fault_kinds.add("clock")
@@ -348,8 +412,11 @@ def run(case, tape: Tape, ctx):
 
     from flox import dask_array_ops
 
-    if _ZYGOTE is None:
+    if _zy() is None:
         raise RuntimeError("zygote not started (warmup() must run before workers are forked)")
+    if _REGISTRY0 is None:
+        warmup()
+    _reset_known_state()
     arrays = [dec_array(a) for a in case["pool"]["arrays"]]
     labels = [dec_array(l) for l in case["pool"]["labels"]]
     user_aggs: dict = {}
@@ -412,7 +479,7 @@ def run(case, tape: Tape, ctx):
                         raise Violation("side-effect", f"op {i} ({op['api']}) modified its expected_groups argument", op=i, api=op["api"])
                     check_side_effects(i, op)
                     # history oracle
-                    resp = _ZYGOTE.request((case["pool"], op))
+                    resp = _zy().request(("eval", case["pool"], op))
                     if resp[0] != "ok":
                         raise RuntimeError(f"pristine process failed: {resp[1:]}")
                     pr = resp[1]
